@@ -344,3 +344,58 @@ package parser
 //@ func FromStringAuthorizerWithParams(input string, parameters ParametersMap) (res biscuit.ParsedAuthorizer, err error)
 //@ serves C10 C14 C19
 //@ modifies nothing
+
+// the entry points without parameters pass a nil parameter map (C10 C14: same guarantees)
+//@ func FromStringFact(input string) (res biscuit.Fact, err error)
+//@ serves C10 C14 C19
+//@ modifies nothing
+
+//@ func FromStringRule(input string) (res biscuit.Rule, err error)
+//@ serves C10 C14 C19
+//@ modifies nothing
+//@ ensures wf: err == nil ==> pRuleWF(res)
+
+//@ func FromStringCheck(input string) (res biscuit.Check, err error)
+//@ serves C10 C14 C19
+//@ modifies nothing
+//@ ensures wf: err == nil ==> pRulesWF(res.Queries)
+
+//@ func FromStringPolicy(input string) (res biscuit.Policy, err error)
+//@ serves C10 C14 C19
+//@ modifies nothing
+//@ ensures wf: err == nil ==> pRulesWF(res.Queries)
+
+//@ func FromStringBlock(input string) (res biscuit.ParsedBlock, err error)
+//@ serves C10 C14 C19
+//@ modifies nothing
+
+//@ func FromStringAuthorizer(input string) (res biscuit.ParsedAuthorizer, err error)
+//@ serves C10 C14 C19
+//@ modifies nothing
+
+// participle capture hooks: the token text is handed over as a slice of strings; a hook
+// never panics, writes only its receiver and reports a malformed capture as an error
+//@ func (c *Comment) Capture(values []string) (err error)
+//@ serves C10 C14 C19
+//@ requires c != nil
+//@ modifies *c
+//@ ensures one_value: len(values) != 1 ==> err != nil && *c == old(*c)
+
+//@ func (v *Variable) Capture(values []string) (err error)
+//@ serves C10 C14 C19
+//@ requires v != nil
+//@ modifies *v
+//@ ensures one_value: len(values) != 1 ==> err != nil && *v == old(*v)
+
+//@ func (p *Parameter) Capture(values []string) (err error)
+//@ serves C10 C14 C19
+//@ requires p != nil
+//@ modifies *p
+//@ ensures one_value: len(values) != 1 ==> err != nil && *p == old(*p)
+
+//@ func (b *Bool) Capture(values []string) (err error)
+//@ serves C10 C14 C19
+//@ requires b != nil
+//@ modifies *b
+//@ ensures one_value: len(values) != 1 ==> err != nil && *b == old(*b)
+
